@@ -107,6 +107,8 @@ def run(ctx):
         fin = np.isfinite(Fp).all(axis=1) & np.isfinite(om).all(axis=1)
         # reported demand equals the oracle's range-limited demand
         ctx.check_array("reported_demand", tag, np.where(fin, np.maximum(np.abs(Ms - Msat).max(axis=1) / Mmax, np.abs(Ft - Ft_o).max(axis=1) / Fmax), np.inf), 1e-12, inp, cells=cells)
+        # reported per-motor moment forces are the mixer applied to the *range-limited* moment
+        ctx.check_array("reported_moment_forces", tag, np.where(fin, np.abs(Fm - Fm_o).max(axis=1) / np.maximum(Fmax, np.abs(Fm_o).max(axis=1)), np.inf), 1e-12, inp, cells=cells)
         # (a) bounds, always
         viol = np.maximum(np.maximum(0, -Fp).max(axis=1), np.maximum(0, Fp - Fmax[:, None]).max(axis=1))
         ctx.check_array("force_bounds", tag, np.where(fin, viol / Fmax, np.inf), 0.0, inp, cells=cells)
